@@ -301,6 +301,21 @@ Plan generate(Rng &rng, const Opts &opts, uint64_t)
         rest.resize(cap);
     }
     qs.insert(qs.end(), rest.begin(), rest.end());
+    // a component is taken out of the analysed model and put back later, with queries in between: the equivalences
+    // themselves are untouched, so every answer must stay what the connection graph says (before, during and after)
+    if (!havePlant && !lattice && p.cfg["parsed"] == 0 && qs.size() > 4 && opts.f("moves", rng.chance(1, 3) ? 1 : 0) != 0) {
+        p.cfg["moves"] = 1;
+        long nMoves = rng.range(1, 2);
+        for (long k = 0; k < nMoves; ++k) {
+            size_t a = rng.below(qs.size() - 2), b = a + 1 + rng.below(qs.size() - a - 1);
+            Step d, t;
+            d.op = "DETACH";
+            t.op = "ATTACH";
+            d.a = t.a = {long(rng.below(8))};
+            qs.insert(qs.begin() + long(b), t);
+            qs.insert(qs.begin() + long(a), d);
+        }
+    }
     p.steps.insert(p.steps.end(), qs.begin(), qs.end());
     // a second phase: the model is edited after it has been analysed and queried, analysed again (by the same
     // analyser or a new one) and queried again - whatever was memoised for the first analysis must not answer now
@@ -416,6 +431,7 @@ void execute(const Plan &plan, Ctx &ctx)
         model->addComponent(c);
         comps.push_back(c);
     }
+    std::vector<bool> detached(comps.size(), false);
     std::vector<VariablePtr> vars;
     std::vector<long> varComp;
     std::vector<std::pair<long, long>> edges;
@@ -534,6 +550,12 @@ void execute(const Plan &plan, Ctx &ctx)
                 continue;
             }
             ctx.begin(stepNo, "ANALYSE", "");
+            for (size_t ci = 0; ci < comps.size(); ++ci) {
+                if (detached[ci]) { // (a plan from which the shrinker removed the ATTACH step)
+                    model->addComponent(comps[ci]);
+                    detached[ci] = false;
+                }
+            }
             // ground truth from the model itself (equivalentVariable lists), cross-checked with the plan's edges;
             // computed before the analysis (to write one equation per class) and again after it (a variable that only
             // an earlier analysis result kept alive dies when the analyser lets go of that result)
@@ -689,9 +711,29 @@ void execute(const Plan &plan, Ctx &ctx)
                     return;
                 }
             }
+        } else if (s.op == "DETACH" || s.op == "ATTACH") {
+            if (am == nullptr || parsed) {
+                continue;
+            }
+            size_t ci = size_t(s.arg(0)) % comps.size();
+            if (s.op == "DETACH" && !detached[ci]) {
+                ctx.begin(stepNo, "DETACH", "");
+                model->removeComponent(comps[ci], false);
+                detached[ci] = true;
+                ctx.count("fault_component_taken_out_of_the_analysed_model");
+                ctx.ev("DETACH c" + str(ci));
+            } else if (s.op == "ATTACH" && detached[ci]) {
+                ctx.begin(stepNo, "ATTACH", "");
+                model->addComponent(comps[ci]);
+                detached[ci] = false;
+                ctx.ev("ATTACH c" + str(ci));
+            }
         } else if (s.op == "Q" || s.op == "H") {
             if (am == nullptr || vars.empty()) {
                 continue;
+            }
+            if (std::find(detached.begin(), detached.end(), true) != detached.end()) {
+                ctx.count("queries_while_a_component_is_out_of_the_model");
             }
             size_t i = size_t(s.arg(0)) % vars.size(), j = size_t(s.arg(1)) % vars.size();
             if (vars[i] == nullptr || vars[j] == nullptr) {
